@@ -8,6 +8,8 @@ require (
 	github.com/andybalholm/brotli v1.2.2 // indirect
 	github.com/klauspost/compress v1.19.2 // indirect
 	github.com/valyala/bytebufferpool v1.0.0 // indirect
+	golang.org/x/net v0.58.0 // indirect
+	golang.org/x/text v0.41.0 // indirect
 )
 
 replace github.com/valyala/fasthttp => /repo
